@@ -67,7 +67,7 @@ def run(res, tier):
         # 3. gate-scheduled interleavings (hooks): the close / next-datagram race, forced
         trg = os.path.join(tmp, "udp_gated.ndjson")
         sumg = os.path.join(tmp, "sumg.json")
-        rc, out, err = run_child(vdrive, ["udp-gated", "-out", trg, "-summary", sumg, "-reps", "30" if tier == "quick" else "300", "-closes", "30000" if tier == "quick" else "600000"])
+        rc, out, err = run_child(vdrive, ["udp-gated", "-out", trg, "-summary", sumg, "-reps", "30" if tier == "quick" else "300", "-closes", "30000" if tier == "quick" else "600000"] + (["-idle"] if tier == "thorough" else []))
         if rc != 0:
             if "panic:" in err:
                 crash_violation(res, out, err, "udp-gated")
